@@ -135,6 +135,43 @@ AllowedIR(k, dd, b) ==
       r \in AllowedRets(k, dd, b.ret) }
 
 \* ------------------------------------------------------------------------
+\* chains of hops (C05): what may have become of an *original* slot after the hops on `path` (seq of <<kind, dd>>)
+\* ------------------------------------------------------------------------
+PathKinds(path) == {path[i][1] : i \in 1..Len(path)}
+PathLossy(path) == \E i \in 1..Len(path) : ~DefExpr(path[i][1], path[i][2])
+AnyFillDef == {"none", "int0", "strEmpty", "float0", "boolF"}
+AnyFillTyp(path, o) == (IF TypeOfDef(o.def) # "none" THEN {TypeOfDef(o.def)} ELSE {})
+                 \cup {"NoneType"}      \* N3 on a None default (explicit, or filled by an earlier hop)
+                 \cup (IF "class" \in PathKinds(path) THEN {"object"} ELSE {})
+                 \cup (IF "argparse" \in PathKinds(path) THEN {"str", "OptStr"} ELSE {})
+\* types a slot may have after the kinds on the path: itself, a fill of an absent type, argparse's str fall-back for
+\* anything argparse cannot express, and (argparse) the Optional[..] wrapping of a None-defaulted parameter
+ChainTyps(path, o) ==
+  LET base0 == {o.typ} \cup (IF o.typ = "none" THEN AnyFillTyp(path, o) ELSE {})
+      base1 == base0 \cup (IF "argparse" \in PathKinds(path) /\ (\E t \in base0 : ~ArgExpr(t)) THEN {"str", "OptStr"} ELSE {})
+  IN  base1 \cup (IF "argparse" \in PathKinds(path) THEN {OptOf(t) : t \in base1} ELSE {})
+ChainDefs(path, o) ==
+  {o.def} \cup (IF o.def = "absent" THEN AnyFillDef ELSE {})
+          \cup (IF PathLossy(path) THEN {"absent"} \cup AnyFillDef ELSE {})
+          \cup (IF "argparse" \in PathKinds(path) /\ o.def = "none" THEN {"absent"} \cup AnyFillDef ELSE {})
+SlotRefines(path, o, c) ==
+  /\ c.name = o.name
+  /\ c.dbase = o.dbase
+  /\ c.typ \in ChainTyps(path, o)
+  /\ c.def \in ChainDefs(path, o)
+  /\ c.dann # "diff"
+ChainRetDefs(path, o) ==
+  {o.def} \cup (IF PathLossy(path) THEN {"absent"} \cup AnyFillDef ELSE {})
+          \cup (IF o.def = "absent" /\ "class" \in PathKinds(path) THEN AnyFillDef ELSE {})
+ChainRetTyps(path, o) == {o.typ} \cup (IF o.typ = "none" /\ "class" \in PathKinds(path) THEN {"object"} ELSE {})
+RetRefines(path, o, c) ==
+  /\ (c.present => o.present)
+  /\ (o.present /\ ~c.present => "argparse" \in PathKinds(path))
+  /\ (c.present => /\ c.dbase = o.dbase
+                   /\ c.def \in ChainRetDefs(path, o)
+                   /\ c.typ \in ChainRetTyps(path, o))
+
+\* ------------------------------------------------------------------------
 \* style detection (C01): priority rest > google > numpydoc over section-token flags
 \* ------------------------------------------------------------------------
 HasEntries(ir) == Len(ir.params) > 0 \/ ir.ret.present
